@@ -695,6 +695,16 @@ def persist_cases(E, ctx):
         if rc is not None:
             old = z3.If(z3.Select(ctx.old_has(rc), h), z3.Select(ctx.old_val(rc), h), 0)
             out.append(("counted", mk_bool(z3.And(z3.Select(rc.has, h), z3.Select(rc.val, h) == old + 1))))
+            k = z3.Const("k!rc", SeqI)
+            out.append(("other-counts-untouched", mk_bool(z3.ForAll([k], z3.Implies(k != h, z3.And(
+                z3.Select(rc.has, k) == z3.Select(ctx.old_has(rc), k),
+                z3.Select(rc.val, k) == z3.Select(ctx.old_val(rc), k))), patterns=[z3.Select(rc.val, k)]))))
+            if not hasattr(ctx, "outcome"):
+                # the same at the ghost hash of the count clauses (spares the callers the instantiation)
+                g = z3.Const("h!count", SeqI)
+                E.assume(mk_bool(z3.Implies(g != h, z3.And(z3.Select(rc.has, g) == z3.Select(ctx.old_has(rc), g),
+                                                           z3.Select(rc.val, g) == z3.Select(ctx.old_val(rc), g)))))
+                E.assume(mk_bool(dict_at(rc.has, rc.val, g) == dict_at(ctx.old_has(rc), ctx.old_val(rc), g) + z3.If(g == h, 1, 0)))
         return out
 
     def ret_hashed():
@@ -775,6 +785,9 @@ def prune_node_cases(E, ctx):
     def post():
         old = z3.If(z3.Select(ctx.old_has(pend), h), z3.Select(ctx.old_val(pend), h), 0)
         k = z3.Const("k!pp", SeqI)
+        if not hasattr(ctx, "outcome"):
+            g = z3.Const("h!count", SeqI)
+            E.assume(mk_bool(dict_at(pend.has, pend.val, g) == dict_at(ctx.old_has(pend), ctx.old_val(pend), g) + z3.If(g == h, 1, 0)))
         return [("one-more-pending-prune", mk_bool(z3.And(z3.Select(pend.has, h), z3.Select(pend.val, h) == old + 1))),
                 ("other-keys-untouched", mk_bool(z3.ForAll([k], z3.Implies(k != h, z3.And(
                     z3.Select(pend.has, k) == z3.Select(ctx.old_has(pend), k),
@@ -883,6 +896,17 @@ def set_cases(E, ctx):
         return [("store-only-grows", mk_bool(grows()))]
     # the argument list may be modified in place; in callee mode it is poisoned instead of havoced (see make)
     mods = [db] + ([ctx.node] if (unit_mode and isinstance(ctx.node, ListObj)) else [])
+    pruning = s.fields.get("is_pruning") is True
+    if pruning and not unit_mode:
+        rc_, pend_ = s.fields["_ref_count"], s.fields["_pending_prune_keys"]
+        mods = mods + [rc_, pend_]
+        make0 = make
+
+        def make():
+            r = make0()
+            # count clause of the pruning unit (_set#pruning), at the ghost hash
+            E.assume(mk_bool(count_delta_clause(E, ctx, Dold, HM.alpha(r), rc_, pend_)))
+            return r
     # C07: a failed _set has written nothing (reads precede writes) and names a hash that is absent
     def missing_exc(e):
         out = keyerror_clauses(e, ctx.old_has(db))
@@ -901,8 +925,8 @@ def set_cases(E, ctx):
         E.ghost.setdefault("hneed_rules", []).append((Dold, K, h))
         return e
     return [Case("updated", ensures=ens if unit_mode else None, make=None if unit_mode else make, post=post, modifies=mods),
-            Case("missing-node", raises=KeyError, modifies=[], exc=missing_exc,
-                 make=None if unit_mode else missing_make)]
+            Case("missing-node", raises=KeyError, modifies=[s.fields["_pending_prune_keys"]] if (pruning and not unit_mode) else [],
+                 exc=missing_exc, make=None if unit_mode else missing_make)]
 
 
 def keyerror_clauses(e, old_has):
@@ -951,9 +975,80 @@ def _key_pair_facts_hex(E, K, q, D):
         SL.use(E, "lcp_prefix", ta, tb, rterm)
 
 
+# ---- reference counting of a pruning trie (C06) ------------------------------------------------------------------
+# net(h) = _ref_count[h] - _pending_prune_keys[h] (absent entries count as 0).  What one recursive update does to it,
+# for an arbitrary hashed node h (ghost HG0):
+#     net'(h) - net(h)  =  hrefs(result, h) - hrefs(argument, h) - [the argument node is hashed and is h]
+# (the result is persisted -- counted -- by the caller; the argument was referenced by the caller and is pruned here).
+# With _set_root_node counting the new root and _complete_pruning applying the pending prunes this gives, for set /
+# delete as a whole:  count'(h) - count(h) = RC(new root, h) - RC(old root, h),  RC(root, h) = [root = h] + hrefs.
+
+HG0 = z3.Const("h!count", SeqI)        # ghost: an arbitrary node hash
+
+
+def dict_at(has, val, k):
+    return z3.If(z3.Select(has, k), z3.Select(val, k), 0)
+
+
+def net_count(rc, pend, h, old_ctx=None):
+    if old_ctx is not None:
+        return dict_at(old_ctx.old_has(rc), old_ctx.old_val(rc), h) - dict_at(old_ctx.old_has(pend), old_ctx.old_val(pend), h)
+    return dict_at(rc.has, rc.val, h) - dict_at(pend.has, pend.val, h)
+
+
+def self_count(E, D, h):
+    """1 if the node D is referenced by hash and that hash is h"""
+    enc, small = mk_ref_parts(E, D)
+    return z3.If(z3.And(z3.Not(HNode.is_HBlank(D)), z3.Not(small), specfn.keccak(enc) == h), 1, 0)
+
+
+def count_delta_clause(E, ctx, Dold, Dnew, rc, pend, h=None):
+    h = HG0 if h is None else h
+    HM.unfold_hrefs(E, Dold, h)
+    HM.unfold_hrefs(E, Dnew, h)
+    return net_count(rc, pend, h) - net_count(rc, pend, h, ctx) == HM.hrefs(Dnew, h) - HM.hrefs(Dold, h) - self_count(E, Dold, h)
+
+
+def pruning_trie(E):
+    t = write_trie(E, pruning=True)
+    t.fields["_pending_prune_keys"] = E.fresh_dict("pending", "bytes", "int", default=0)
+    return t
+
+
+def set_pruning_setup(E):
+    t = pruning_trie(E)
+    E.ghost["hex_value_slots"] = True
+    D = z3.Const("node.D", HNode)
+    E.assume(mk_bool(HM.hwfp(D)))
+    HM.unfold_wf(E, D)
+    node = HM.materialize(E, D)
+    key = HM.nibs(E, "trie_key")
+    value = E.fresh_seq("value", "bytes")
+    E.assume(mk_bool(z3.Length(value.t) > 0))
+    E.ghost["q0"] = HM.nibs(E, "q0").t
+    E.ghost["D_old"] = D
+    return {"self": t, "node": node, "trie_key": key, "value": value}
+
+
+def set_pruning_cases(E, ctx):
+    """_set on a pruning trie: the count clause only (view / canonical form are the clauses of the non-pruning unit;
+    the code paths are the same)"""
+    s = ctx.self
+    db, rc, pend = s.fields["db"], s.fields["_ref_count"], s.fields["_pending_prune_keys"]
+    Dold = E.ghost["D_old"]
+
+    def ens(res):
+        return [("count-delta", mk_bool(count_delta_clause(E, ctx, Dold, HM.alpha(res), rc, pend)))]
+    mods = [db, rc, pend] + ([ctx.node] if isinstance(ctx.node, ListObj) else [])
+    return [Case("updated", ensures=ens, modifies=mods),
+            Case("missing-node", raises=KeyError, modifies=[pend])]
+
+
 def _register_write(reg):
     g = "hexary_write"
     H = HEX + ":HexaryTrie."
+    reg.add("hexary_prune", Contract(H + "_set#pruning", ["self", "node", "trie_key", "value"], set_pruning_cases,
+                                     setup=set_pruning_setup, props=("C06", "C01"), callee=False, target=H + "_set"))
     reg.add(g, Contract(H + "_set", ["self", "node", "trie_key", "value"], set_cases, setup=set_setup,
                         requires=set_requires, props=("C01", "C02", "C04", "C07")))
 
@@ -1022,10 +1117,51 @@ def norm_cases(E, ctx):
         HM.unfold_wf(E, Dn)
         E.ghost.setdefault("hview_rules2", []).append((Dn, lambda Q: HM.hlk(Dn, Q) == HM.hlk(Dold, Q), Dold))
         return HM.materialize(E, Dn)
+    pruning = s.fields.get("is_pruning") is True
+    cmods = []
+    if pruning and not unit_mode:
+        rc_, pend_ = s.fields["_ref_count"], s.fields["_pending_prune_keys"]
+        cmods = [pend_]
+        make0 = make
+
+        def make():
+            r = make0()
+            # count clause of _normalize_branch_node#pruning: the merged node refers to what the branch referred to,
+            # minus the consumed child
+            HM.unfold_hrefs(E, Dold, HG0)
+            HM.unfold_hrefs(E, HM.alpha(r), HG0)
+            E.assume(mk_bool(net_count(rc_, pend_, HG0) - net_count(rc_, pend_, HG0, ctx) ==
+                             HM.hrefs(HM.alpha(r), HG0) - HM.hrefs(Dold, HG0)))
+            return r
     return [Case("kept", when=mk_bool(cnt >= 2), returns=lambda: Is(node)),
-            Case("collapsed", when=mk_bool(cnt == 1), ensures=ens if unit_mode else None, make=None if unit_mode else make),
+            Case("collapsed", when=mk_bool(cnt == 1), ensures=ens if unit_mode else None, make=None if unit_mode else make,
+                 modifies=cmods),
             Case("missing-node", when=mk_bool(cnt == 1), raises=KeyError, exc=lambda e: keyerror_clauses(e, ctx.old_has(db)),
                  make=None if unit_mode else (lambda: keyerror_make(E, ctx.old_has(db))))]
+
+
+def norm_pruning_setup(E):
+    t = pruning_trie(E)
+    node, D = fresh_branch(E)
+    E.assume(mk_bool(nonblank_count(D) >= 1))
+    E.ghost["q0"] = HM.nibs(E, "q0").t
+    E.ghost["D_old"] = D
+    return {"self": t, "node": node}
+
+
+def norm_pruning_cases(E, ctx):
+    s = ctx.self
+    rc, pend = s.fields["_ref_count"], s.fields["_pending_prune_keys"]
+    Dold = E.ghost["D_old"]
+
+    def ens(res):
+        Dn = HM.alpha(res)
+        HM.unfold_hrefs(E, Dold, HG0)
+        HM.unfold_hrefs(E, Dn, HG0)
+        return [("count-delta", mk_bool(net_count(rc, pend, HG0) - net_count(rc, pend, HG0, ctx) ==
+                                        HM.hrefs(Dn, HG0) - HM.hrefs(Dold, HG0)))]
+    return [Case("normalised", ensures=ens, modifies=[pend]),
+            Case("missing-node", raises=KeyError, modifies=[])]
 
 
 def del_setup(E):
@@ -1117,13 +1253,54 @@ def del_cases(E, ctx):
         r = make()
         E.assume(mk_bool(z3.Not(HNode.is_HBlank(HM.alpha(r)))))
         return r
+    pruning = s.fields.get("is_pruning") is True
+    emods, mmods = [], lmods
+    if pruning and not unit_mode:
+        rc_, pend_ = s.fields["_ref_count"], s.fields["_pending_prune_keys"]
+        mods = mods + [rc_, pend_]
+        emods, mmods = [pend_], lmods + [rc_, pend_]
+        me0, mu0 = make_emptied, make_updated
+
+        def make_emptied():
+            r = me0()
+            E.assume(mk_bool(count_delta_clause(E, ctx, Dold, HNode.HBlank, rc_, pend_)))     # clause of _delete#pruning
+            return r
+
+        def make_updated():
+            r = mu0()
+            E.assume(mk_bool(count_delta_clause(E, ctx, Dold, HM.alpha(r), rc_, pend_)))
+            return r
     return [Case("emptied", when=mk_bool(emptied), ensures=ens_emptied if unit_mode else None,
-                 make=None if unit_mode else make_emptied, modifies=[]),
+                 make=None if unit_mode else make_emptied, modifies=emods),
             Case("updated", when=mk_bool(z3.Not(emptied)), ensures=ens_updated if unit_mode else None,
                  make=None if unit_mode else make_updated, post=post, modifies=mods),
-            Case("missing-node", when=mk_bool(z3.Not(emptied)), raises=KeyError, modifies=lmods,
+            Case("missing-node", when=mk_bool(z3.Not(emptied)), raises=KeyError, modifies=mmods,
                  exc=lambda e: keyerror_clauses(e, ctx.old_has(db)),
                  make=None if unit_mode else (lambda: keyerror_make(E, ctx.old_has(db))))]
+
+
+def del_pruning_setup(E):
+    t = pruning_trie(E)
+    E.ghost["hex_value_slots"] = True
+    D = z3.Const("node.D", HNode)
+    E.assume(mk_bool(HM.hwfp(D)))
+    HM.unfold_wf(E, D)
+    node = HM.materialize(E, D)
+    E.ghost["q0"] = HM.nibs(E, "q0").t
+    E.ghost["D_old"] = D
+    return {"self": t, "node": node, "trie_key": HM.nibs(E, "trie_key")}
+
+
+def del_pruning_cases(E, ctx):
+    s = ctx.self
+    db, rc, pend = s.fields["db"], s.fields["_ref_count"], s.fields["_pending_prune_keys"]
+    Dold = E.ghost["D_old"]
+
+    def ens(res):
+        return [("count-delta", mk_bool(count_delta_clause(E, ctx, Dold, HM.alpha(res), rc, pend)))]
+    mods = [db, rc, pend] + ([ctx.node] if isinstance(ctx.node, ListObj) else [])
+    return [Case("updated", ensures=ens, modifies=mods),
+            Case("missing-node", raises=KeyError, modifies=mods)]
 
 
 def _merged_path_facts(E, Dn, q, K):
@@ -1150,6 +1327,11 @@ def _register_write2(reg):
     H = HEX + ":HexaryTrie."
     reg.add(g, Contract(H + "_normalize_branch_node", ["self", "node"], norm_cases, setup=norm_setup,
                         requires=norm_requires, props=("C01", "C02", "C07")))
+    reg.add("hexary_prune", Contract(H + "_normalize_branch_node#pruning", ["self", "node"], norm_pruning_cases,
+                                     setup=norm_pruning_setup, props=("C06",), callee=False,
+                                     target=H + "_normalize_branch_node"))
+    reg.add("hexary_prune", Contract(H + "_delete#pruning", ["self", "node", "trie_key"], del_pruning_cases,
+                                     setup=del_pruning_setup, props=("C06", "C01"), callee=False, target=H + "_delete"))
     reg.add(g, Contract(H + "_delete", ["self", "node", "trie_key"], del_cases, setup=del_setup,
                         requires=del_requires, props=("C01", "C02", "C04", "C07")))
 
